@@ -255,8 +255,8 @@ func C11(r *vlib.Run) {
 			add(&c11Case{name: "ok/warnings", gen: be, popts: []string{""}, script: []string{`{"mode":"ok","warnings":["warning-one-zz","warning-two-zz"],"stderr":"stderr-text-zz"}`}, warn: []string{"warning-one-zz", "warning-two-zz", "stderr-text-zz"}})
 			add(&c11Case{name: "ok/two-plugins", gen: be, popts: []string{"slot=first,x=1", "slot=second,y=2"}, script: []string{`{"mode":"ok","files":[{"name":"out/one.txt","content":"1"}]}`, `{"mode":"ok","files":[{"name":"out/two.txt","content":"2"}]}`}, files: map[string]string{"out/one.txt": "1", "out/two.txt": "2"}})
 			add(&c11Case{name: "ok/three-plugins-middle-one-without-parameters", gen: be, popts: []string{"alpha=1,beta,gamma=x=y", "", "last=1"}, names: []string{"p1", "p2", "p3"}, script: []string{`{"mode":"ok"}`, `{"mode":"ok"}`, `{"mode":"ok"}`}})
-			add(&c11Case{name: "fault/error-response", gen: be, popts: []string{""}, script: []string{`{"mode":"error","error":"plugin-says-no-zz","files":[{"name":"out/must_not_exist.txt","content":"x"}]}`}, fail: true, warn: []string{"plugin-says-no-zz"}})
-			add(&c11Case{name: "fault/exit-status", gen: be, popts: []string{""}, script: []string{`{"mode":"exit","exit":3,"files":[{"name":"out/must_not_exist.txt","content":"x"}]}`}, fail: true})
+			add(&c11Case{name: "fault/error-response", gen: be, popts: []string{""}, script: []string{`{"mode":"error","error":"plugin-says-no-zz","warnings":["warning-with-error-zz"],"files":[{"name":"out/must_not_exist.txt","content":"x"}]}`}, fail: true, warn: []string{"plugin-says-no-zz", "warning-with-error-zz"}})
+			add(&c11Case{name: "fault/exit-status", gen: be, popts: []string{""}, script: []string{`{"mode":"exit","exit":3,"stderr":"stderr-before-exit-zz","files":[{"name":"out/must_not_exist.txt","content":"x"}]}`}, fail: true, warn: []string{"stderr-before-exit-zz"}})
 			add(&c11Case{name: "fault/garbage", gen: be, popts: []string{""}, script: []string{`{"mode":"garbage"}`}, fail: true})
 			add(&c11Case{name: "fault/truncated", gen: be, popts: []string{""}, script: []string{`{"mode":"truncate","files":[{"name":"out/must_not_exist.txt","content":"some longer content to cut in the middle"}]}`}, fail: true})
 			add(&c11Case{name: "fault/second-plugin-fails", gen: be, popts: []string{"slot=first", "slot=second"}, script: []string{`{"mode":"ok","files":[{"name":"out/one.txt","content":"1"}]}`, `{"mode":"error","error":"second-says-no-zz"}`}, fail: true, warn: []string{"second-says-no-zz"}})
